@@ -105,8 +105,16 @@ func (b *Bucket[V]) IsStale() (stale bool) {
 		return true
 	}
 
-	latest := b.items[b.items.Len()-1]
-	return latest.expired(time.Now())
+	// The items form a heap ordered by priority: only the first element is in a
+	// known position (the earliest), the latest one can be anywhere in the
+	// second half of the slice. The bucket is stale only if every item expired.
+	now := time.Now()
+	for _, it := range b.items {
+		if !it.expired(now) {
+			return false
+		}
+	}
+	return true
 }
 
 // Upsert tries to add a new value and its priority to the bucket.
